@@ -70,3 +70,13 @@ Theorem C13_two_steps (F : fieldType) u n1 n2 (P : gstate F u)
   innov P E1 N1 \in unitmx -> innov (cond P E1 y1 N1) E2 N2 \in unitmx ->
   cond (cond P E1 y1 N1) E2 y2 N2 = cond P (col_mx E1 E2) (col_mx y1 y2) (block_mx N1 0 0 N2).
 Proof. exact: cond_two_steps. Qed.
+
+(* `cond` is the textbook conditional: with the universe (training points ++ test points) and the operator selecting the
+   training points, the test block of the posterior is  m* + K*^T (K + N)^-1 (y - m)  and  K** - K*^T (K + N)^-1 K* *)
+Theorem C13_cond_is_textbook (F : fieldType) n nt (m : 'cV[F]_n) (mt : 'cV[F]_nt) (K : 'M[F]_n) (Ks : 'M[F]_(n, nt))
+    (Kss : 'M[F]_nt) (y : 'cV[F]_n) (N : 'M[F]_n) :
+  let P : gstate F (n + nt) := (col_mx m mt, block_mx K Ks Ks^T Kss) in
+  let E : 'M[F]_(n, n + nt) := row_mx 1%:M 0 in
+  dsubmx (cond P E y N).1 = mt + Ks^T *m invmx (K + N) *m (y - m) /\
+  drsubmx (cond P E y N).2 = Kss - Ks^T *m invmx (K + N) *m Ks.
+Proof. exact: cond_select. Qed.
